@@ -483,7 +483,7 @@ def _dom(c):
 def _div(a, b):
     if b.op == "c":
         if b.val == 0:
-            raise ZeroDivisionError("division by the constant zero in the real lane")
+            raise NonReal("division by the constant zero in the real lane")
     else:
         _dom(tm.ne(b, tm.const(0)))
     return tm.div(a, b)
